@@ -14,7 +14,8 @@ from props import c19
 # where the write of the (temporary) state file dies: before the first character, after 1, 1/3, 1/2, all but one
 # character, or after everything was written and synced but before the rename
 TORN_CLASSES = ["zero", "one", "third", "half", "last", "complete"]
-CFG = {"replayIsComplete": True, "atomicWrite": False, "loadIsPerEntry": True, "replayOrderPreserved": True, "loadReadsCommitted": True}     # probed per run (see probe)
+CFG = {"replayIsComplete": True, "atomicWrite": False, "loadIsPerEntry": True, "replayOrderPreserved": True, "loadReadsCommitted": True,
+       "saveOnEveryEnding": True}     # probed per run (see probe)
 ROWS = {}                                                 # wave 7: counts per row of the coverage table (notes/C20-report.md)
 UNUSABLE_OK = [False]                                     # probed: a state file that parses but is not a session state is skipped at load
 SEMANTIC_DAMAGE = ["state-null", "state-empty", "state-list", "missing-logs", "logs-wrong-type", "empty-object", "garbage"]
@@ -178,6 +179,8 @@ class Run:
     def step(self, mid, st):
         """-> (kind, body)"""
         iid = self.ids.get(mid, "no-such-instance")
+        if st["k"] == "stream":
+            return self.stream(iid, st)
         if st["k"] == "multi":                            # run-steps: several steps, ONE write at the end
             r = c19.post(self.srv.client, f"/{iid}/run-steps", {"settings": st.get("settings", {}), "numberSteps": st["n"]})
         else:
@@ -192,6 +195,32 @@ class Run:
         if "expecting a valid instance id" in txt:
             return ("invalid", None)
         return (f"http-{r.status_code}", txt[:200])
+
+    def stream(self, iid, st):
+        """stream-steps: runs to the stop time (`close` None), or the client reads `close` results and hangs up (the response is
+        closed: GeneratorExit in the server's generator), or a step fails (settings the runner cannot apply).  The instance is
+        written when the stream ends -- however it ends.  -> ("ok", [results received])"""
+        r = self.srv.client.post(f"/{iid}/stream-steps", data=json.dumps({"settings": st.get("settings", {})}), content_type="application/json",
+                                 buffered=False)
+        if r.status_code != 200:
+            txt = r.get_data(as_text=True)
+            r.close()
+            return ("invalid", None) if "expecting a valid instance id" in txt else (f"http-{r.status_code}", txt[:200])
+        got = []
+        try:
+            if st.get("close") is None:
+                text = b"".join(r.response).decode()
+                got = [x for x in json.loads(text)] if text.strip().endswith("]") else [json.loads(x) for x in text.lstrip("[").split("\n") if x.strip().startswith("{")]
+            else:
+                for chunk in r.response:
+                    chunk = chunk.decode() if isinstance(chunk, bytes) else chunk
+                    if chunk.startswith("{"):
+                        got.append(json.loads(chunk))
+                    if len(got) >= st["close"]:
+                        break
+        finally:
+            r.close()                                     # the client is gone
+        return ("ok", got)
 
     def torn_step(self, mid, st, cls):
         """run-step during which the process dies inside the state write (after a prefix of class `cls`)"""
@@ -422,10 +451,37 @@ def run_ops(hist, ops, base, tag, runner=None):
     return out, files, (run.ctor_error if run else "harness")
 
 
-def model_lines(hist, ops):
+def nsteps(op, counters, un_by_step):
+    """number of single steps a stepping request takes (stream-steps: as many as the uninterrupted run's answer has results)"""
+    st = op[2]
+    if st["k"] == "multi":
+        return st["n"]
+    if st["k"] == "stream":
+        body = (un_by_step or {}).get((op[1], counters.get(op[1], 0)), ("ok", []))[1]
+        return len(body) if isinstance(body, list) else 0
+    return 1
+
+
+def model_lines(hist, ops, un_by_step=None):
     spec = hist["spec"]
     req = ["new", f"cfg {int(CFG['replayIsComplete'])} 1"]
+    counters = {}
     for op in ops:
+        if op[0] == "step" and op[2]["k"] in ("multi", "stream"):
+            n = nsteps(op, counters, un_by_step)
+            counters[op[1]] = counters.get(op[1], 0) + 1
+            for j in range(n):                            # n steps of the model; the files are compared after the last one
+                req.append(f"step {op[1]} {settings_token(op[2])}")
+                if j + 1 < n:
+                    for mid in range(len(hist["instances"])):
+                        req.append(f"file {mid}")
+            if n == 0:
+                req.append("file 0")                      # (a request that took no step: placeholder for its reply)
+            for mid in range(len(hist["instances"])):
+                req.append(f"file {mid}")
+            continue
+        if op[0] == "step":
+            counters[op[1]] = counters.get(op[1], 0) + 1
         if op[0] == "start":
             req.append(f"start {op[1]} {c19.T(spec['start'])} {c19.T(spec['dt'])} {c19.T(spec['stop'])} {op[1]}")
         elif op[0] == "step" and op[2]["k"] == "multi":
@@ -541,9 +597,11 @@ def check_variant(hist, name, ops, un_by_step, base, model_out, runner=None):
     exp_lines, real_lines = [], []
     mi = 2                                            # index into model_out (after "new", "cfg")
     torn_mids = set()
+    corr = []
     for oi, op in enumerate(ops):
         kind, body = got[oi]
-        ngroups = op[2]["n"] if op[0] == "step" and op[2]["k"] == "multi" else 1
+        ngroups = max(1, nsteps(op, counters, un_by_step)) if op[0] == "step" and op[2]["k"] in ("multi", "stream") else 1
+        nexec = nsteps(op, counters, un_by_step) if op[0] == "step" else 1
         m_replies = []
         for _ in range(ngroups):
             m_replies.append(model_out[mi]); mi += 1
@@ -558,9 +616,14 @@ def check_variant(hist, name, ops, un_by_step, base, model_out, runner=None):
             u_kind, u_body = un_by_step[(mid, n)]
             same = (kind == u_kind and body == u_body)
             real_lines.append((kind, u_kind, same))
-            c_tok, u_tok = m_reply.split(";")
-            c_tok, u_tok = c_tok[2:], u_tok[2:]
-            if ngroups > 1:                               # run-steps answers 200 with a list: kinds ok/stopped of the single steps do not show
+            if nexec > 0:
+                c_tok, u_tok = m_reply.split(";")
+                c_tok, u_tok = c_tok[2:], u_tok[2:]
+            if nexec == 0:                                # a stream whose first step failed: no step in the model, answered 200 with []
+                exp_lines.append((kind if kind == "invalid" else "ok", "ok", kind != "invalid"))
+                if kind == "invalid":                     # (the model has no request to refuse here: the reference check below decides)
+                    exp_lines[-1] = real_lines[-1]
+            elif op[2]["k"] in ("multi", "stream"):       # answered 200 with a list: kinds ok/stopped of the single steps do not show
                 alleq = all(r_.split(";")[0][2:] == r_.split(";")[1][2:] for r_ in m_replies)
                 mk = lambda t: "ok" if t.split(":")[0] in ("ok", "stopped") else t.split(":")[0]
                 exp_lines.append((mk(c_tok), mk(u_tok), alleq))
@@ -594,10 +657,13 @@ def check_variant(hist, name, ops, un_by_step, base, model_out, runner=None):
         # files: model vs real
         if files[oi] is not None:
             real_f = [files[oi].get(m, "none") for m in range(len(hist["instances"]))]
-            if real_f != m_files and not viol:
-                viol.append(("correspondence-files", f"{name}: after op {oi} {op[:2]} files are {real_f}, model says {m_files}"))
+            if real_f != m_files and not viol and not corr:
+                # (kept aside: the run goes on, a reference violation further on is the finding with the failing input)
+                corr.append(("correspondence-files", f"{name}: after op {oi} {op[:2]} files are {real_f}, model says {m_files}"))
         if viol:
             break
+    if not viol and corr:
+        viol = corr
     if not viol and exp_lines != real_lines and CFG["replayIsComplete"] and CFG["replayOrderPreserved"]:
         i = next(i for i, (a, b) in enumerate(zip(exp_lines, real_lines)) if a != b)
         viol.append(("correspondence-answers", f"{name}: step request #{i}: (crashed kind, uninterrupted kind, equal) real {real_lines[i]} model {exp_lines[i]}"))
@@ -625,7 +691,7 @@ def run_history(hist, base, only=None, runner=None, pick=None):
         vs = [v for v in vs if v[0] == only]
     req, spans = [], []
     for name, vops in vs:
-        q = model_lines(hist, vops)
+        q = model_lines(hist, vops, un_by_step)
         spans.append((len(req), len(req) + len(q)))
         req += q
     model = drive("C20", req)
@@ -758,6 +824,23 @@ def request_kind_histories(quick):
     return out
 
 
+BAD_SETTINGS = {"smA": {"a": {"constants": 5}}}          # the runner cannot apply them: the first step of the stream raises
+
+
+def stream_histories(quick):
+    """stream-steps as the stepping request: complete (to the stop time), closed by the client after k results, failing at its
+    first step; other stepping requests before and after; crash points exhaustive (in particular: right after the stream, before
+    any other saving request), write cuts as for every history; both modes"""
+    out = []
+    shapes = [[copy.deepcopy(C5), {"k": "stream", "settings": {}, "close": 2}, {"k": "empty"}, {"k": "stream", "settings": copy.deepcopy(K3["settings"]), "close": None}],
+              [{"k": "stream", "settings": copy.deepcopy(C5["settings"]), "close": 1}, {"k": "stream", "settings": copy.deepcopy(BAD_SETTINGS), "close": None}, {"k": "empty"}]]
+    for j, steps in enumerate(shapes):
+        for compress in ((False, True) if not quick else (j % 2 == 0,)):
+            out.append({"spec": {"start": 1.0, "dt": 0.5, "stop": 4.0}, "compress": compress,
+                        "instances": [{"sms": ["smA"], "scs": ["a"], "eqs": ["s", "c"], "steps": copy.deepcopy(steps)}]})
+    return out
+
+
 def tmp_histories(quick):
     """the write of EVERY step dies at EVERY cut of the temporary file, start-up load and lazy load, both adapter modes"""
     out = []
@@ -823,11 +906,34 @@ def probe(base):
     facts["loadIsPerEntry"] = probe_load(base)
     facts["replayOrderPreserved"] = probe_order(base)
     facts["loadReadsCommitted"] = probe_tmp(base)
+    facts["saveOnEveryEnding"] = probe_endings(base)
     facts["loadSkipsUnusableStates"] = probe_unusable(base)
     UNUSABLE_OK[0] = facts["loadSkipsUnusableStates"]
     for k in CFG:
         CFG[k] = facts[k]
     return facts
+
+
+def probe_endings(base):
+    """after a stream-steps request the state file holds what the live session holds -- when the stream ran to the end, when the client
+    hung up after one result, when its first step failed"""
+    import contextlib, io
+    ok = True
+    with contextlib.redirect_stdout(io.StringIO()):
+        run = Run({"start": 1.0, "dt": 0.5, "stop": 4.0}, False, os.path.join(base, "state-endings"))
+        try:
+            run.start(0, WITNESS["instances"][0])
+            run.step(0, {"k": "empty"})
+            for st in ({"k": "stream", "settings": {}, "close": 1}, {"k": "stream", "settings": copy.deepcopy(BAD_SETTINGS), "close": None},
+                       {"k": "stream", "settings": {}, "close": None}):
+                run.step(0, st)
+                live = run.srv.bptk(run.ids[0]).session_state
+                ok = ok and run.file_state(0) == f"ok:step={c19.T(live['step'])};n={len(live['settings_log'])}"
+        except Exception:
+            ok = False
+        finally:
+            run.close()
+    return ok
 
 
 def probe_unusable(base):
@@ -967,14 +1073,18 @@ def gen_lean(facts):
            f"dropped, every other one decompressed): {facts['loadIsPerEntry']} -/\n"
            f"def cfg : Cfg := {{ replayIsComplete := {b(facts['replayIsComplete'])}, atomicWrite := {b(facts['atomicWrite'])}, "
            f"loadIsPerEntry := {b(facts['loadIsPerEntry'])}, replayOrderPreserved := {b(facts['replayOrderPreserved'])}, "
-           f"loadReadsCommitted := {b(facts['loadReadsCommitted'])}, loadSkipsUnusable := {b(facts.get('loadSkipsUnusableStates'))} }}\n"
+           f"loadReadsCommitted := {b(facts['loadReadsCommitted'])}, saveOnEveryEnding := {b(facts['saveOnEveryEnding'])}, loadSkipsUnusable := {b(facts.get('loadSkipsUnusableStates'))} }}\n"
            f"-- a load reads the committed state file, never a temporary file lying next to it (torn or complete): {facts['loadReadsCommitted']}\n"
            f"-- a state file that parses but does not hold a session state is skipped like an unreadable one (File.torn of the model covers both): "
            f"{facts.get('loadSkipsUnusableStates')}\n"
            f"-- the adapter round trip keeps the order of the logged steps (labels 9.0,10.0 / -2.0,-1.0 / 99.5,100.0 / 0.0..11.0): {facts['replayOrderPreserved']}\n"
            "theorem holds_wave1 {σ ρ : Type} (d : Dyn σ ρ) : C20_full d := C20_full_holds d\n#print axioms holds_wave1\n")
     rest_good = facts["replayIsComplete"] and facts["loadIsPerEntry"] and facts["replayOrderPreserved"]
-    if rest_good and not facts["loadReadsCommitted"] and facts["atomicWrite"]:
+    out += (f"-- the instance is written after a stream-steps request however it ends (complete / client gone / failing step): "
+            f"{facts['saveOnEveryEnding']}\n")
+    if rest_good and facts["loadReadsCommitted"] and not facts["saveOnEveryEnding"]:
+        out += "theorem violated : ¬ C20_full_cfg cfg histDyn := C20_witness_client_gone cfg (by decide)\n#print axioms violated\n"
+    elif rest_good and not facts["loadReadsCommitted"] and facts["atomicWrite"]:
         out += ("theorem violated : ¬ C20_full_cfg cfg histDyn := C20_witness_temp_first cfg (by decide) (by decide)\n#print axioms violated\n")
     elif rest_good and not facts["loadReadsCommitted"]:
         out += "-- the temporary file is read first, but the write is not atomic on this tree: no temporary file is ever left\n"
@@ -985,7 +1095,7 @@ def gen_lean(facts):
                 "#print axioms violated\n")
     elif facts["replayIsComplete"]:
         out += "theorem holds {σ ρ : Type} (d : Dyn σ ρ) : C20_full_cfg cfg d := C20_full_of_good cfg (by decide) d\n#print axioms holds\n"
-        if facts["atomicWrite"] and facts["loadIsPerEntry"] and facts["replayOrderPreserved"] and facts["loadReadsCommitted"]:
+        if facts["atomicWrite"] and facts["loadIsPerEntry"] and facts["replayOrderPreserved"] and facts["loadReadsCommitted"] and facts["saveOnEveryEnding"]:
             out += ("theorem no_instance_lost_in_write {σ ρ : Type} (d : Dyn σ ρ) : NoLossInWrite cfg d := "
                     "noLoss_of_atomic cfg (by decide) (by decide) d\n#print axioms no_instance_lost_in_write\n")
     else:
@@ -1033,7 +1143,9 @@ def _run(chk, base):
                        "points; fsync/rename ordering of the file system is trusted", "SD sessions; start/dt on the dyadic or the decimal lattice (see C19)"]
     nmax = 6 if chk.quick else 12
     rng = chk.rng.fork("c20-hist")
-    hists = [WITNESS, WITNESS_LATE] + request_kind_histories(chk.quick) + tmp_histories(chk.quick) + boundary_histories(chk.quick) + damage_histories(chk.quick) + late_settings_histories(chk.quick) + [gen_history(rng, nmax) for _ in range(5 if chk.quick else 40)]
+    hists = ([WITNESS, WITNESS_LATE] + damage_histories(chk.quick) + stream_histories(chk.quick) + request_kind_histories(chk.quick) +
+             tmp_histories(chk.quick) + boundary_histories(chk.quick) + late_settings_histories(chk.quick) +
+             [gen_history(rng, nmax) for _ in range(5 if chk.quick else 40)])   # (the dedicated families first: the time cap may cut the tail)
     chk.cov["rule"] = (f"per generated history (1-3 instances, <= {nmax} steps, settings / {{}} / no body, both adapter modes): one uninterrupted run, then one "
                        "run per crash point k in 0..N (exhaustive) and one per stepping request x torn-write class {0, inside envelope, inside inner state "
                        "string, length-1} (with an atomic state write the request that died is retried), two runs with crashes at several positions; "
@@ -1056,7 +1168,9 @@ def _run(chk, base):
         for i_ in h["instances"]:
             for s_ in i_["steps"]:
                 row("stepping request: " + {"set": "run-step with settings", "empty": "run-step with {}", "nobody": "run-step without body",
-                                            "multi": "run-steps (several steps, one write)"}[s_["k"]], 1)
+                                            "multi": "run-steps (several steps, one write)",
+                                            "stream": "stream-steps " + ("failing at its first step" if s_.get("settings") == BAD_SETTINGS else
+                                                                         "complete" if s_.get("close") is None else "closed by the client")}[s_["k"]], 1)
             row("session settings given at begin-session" if i_.get("settings") else "session without session settings")
         for nm, _ in vs:
             kind = nm.split("@")[0] + (":lazy load" if nm.endswith(":lazy") else "") + (" (several)" if "+" in nm and nm.startswith("crash") else "")
